@@ -676,6 +676,9 @@ class Interp:
         E['@_ZNSt8ios_base4InitC1Ev'] = lambda st, a: None
         E['@_ZNSt8ios_base4InitD1Ev'] = lambda st, a: None
         def clock(st, args):
+            g = s.gaddr.get('@vk_now_ms')
+            if g is not None:          # harness-controlled virtual clock (shadow/vk_world.hpp)
+                return s.binop('mul', 64, s.load(st, g, 8), 1000000)
             # arbitrary non-decreasing instant (nanoseconds since epoch, signed 64-bit, kept below 2^62)
             v = s.new_sym(st, 64)
             if not isc(v):
@@ -863,10 +866,11 @@ class Interp:
         if op == 'load':
             p.accept('atomic'); p.accept('volatile'); ty = p.type(); p.expect(','); pt = p.type(); a = s.operand(p, pt)
             rt = L.res(ty)
-            return ('load', dst, L.size(ty), rt.w if isinstance(rt, TInt) else 0, a)
+            return ('load', dst, (rt.w + 7) // 8 if isinstance(rt, TInt) else L.size(ty), rt.w if isinstance(rt, TInt) else 0, a)
         if op == 'store':
             p.accept('atomic'); p.accept('volatile'); ty = p.type(); v = s.operand(p, ty); p.expect(','); pt = p.type(); a = s.operand(p, pt)
-            return ('store', L.size(ty), ty, v, a)
+            rt = L.res(ty)
+            return ('store', (rt.w + 7) // 8 if isinstance(rt, TInt) else L.size(ty), ty, v, a)
         if op == 'alloca':
             ty = p.type()
             if p.accept(',') and p.peek()[1] != 'align': raise Err('dynamic alloca')
